@@ -868,6 +868,12 @@ func (sc *Scope) evalCall(x *ECall) Val {
 		v := sc.eval(x.Args[0])
 		c.compSort["$held"] = "(Array Ref Bool)"
 		return Val{T: c.hsel(sc.cur, "$held", v.T), S: SBool, GT: boolT}
+	case "once":
+		// once(&x.Once): the sync.Once has completed (its function ran to completion)
+		need(1)
+		v := sc.eval(x.Args[0])
+		c.compSort["$once"] = "(Array Ref Bool)"
+		return Val{T: c.hsel(sc.cur, "$once", v.T), S: SBool, GT: boolT}
 	case "slice":
 		need(3)
 		v := arg(0)
